@@ -54,10 +54,9 @@ F = {
             ("C04", "missed_failure", "cfg q=1 c=1 | T0: spawn 1; cwr 0 5; send 0 1; join 1 | T1: tryrecv 0; crd 0; droprx 0", "causality"),
             ("C05", "missed_failure", "cfg q=1 | T0: spawn 1; tryrecv 0; recv 0; join 1; droprx 0 | T1: send 0 1", "deadlock")]),
  "F9": dict(cls="try-acquire-blocked",
-   what="a thread pending on try_lock/try_read/try_write is blocked when another thread acquires the lock, so the failing try is never explored and a false deadlock can be reported (Mutex::post_acquire, RwLock::post_acquire_*)",
+   what="a failing try_lock/try_read/try_write is explored only when the holder's critical section contains a scheduling point: neither the release of a lock nor a cell access is a branch point, so a section without atomics/locks inside is one indivisible step and the 'lock is held' state is never visible to a concurrent try (rt/mutex.rs, rt/rwlock.rs; same family as F7/F19/F24). (That a thread pending on a try was BLOCKED by the acquisition - false deadlocks - was repaired in b682426.)",
    entries=[(p, "missing", "cfg m=1 | T0: spawn 1; trylock 0; ifeq 1 v:1 1; unlock 0; join 1 | T1: lock 0; unlock 0",
              "ok 0:0=- 0:1=v:0 0:4=- 1:0=- 1:1=-") for p in ("C01", "C07")] +
-           [(p, "badverdict", "cfg m=1 | T0: spawn 1; lock 0; join 1; unlock 0 | T1: trylock 0; ifeq 1 v:1 1; unlock 0", "deadlock") for p in ("C01", "C05", "C07")] +
            [("C19", "controls-not-subset", "cfg m=2 c=1 | T0: spawn 1; lock 0; lock 1; unlock 1; unlock 0; skip; lock 0; lock 1; unlock 1; unlock 0; join 1 | T1: trylock 0; ifeq 1 v:1 2; crd 0; unlock 0; lock 0; cwr 0 1; unlock 0",
              "v:0", None, "cfg m=2 c=1 | T0: spawn 1; lock 0; lock 1; unlock 1; unlock 0; lock 0; lock 1; unlock 1; unlock 0; join 1 | T1: trylock 0; ifeq 1 v:1 2; crd 0; unlock 0; lock 0; cwr 0 1; unlock 0")]),
  "F10": dict(cls="arc-inspect-not-dependent",
@@ -78,21 +77,20 @@ F = {
  "F22": dict(cls="lazy-static-dropped-at-main-exit",
    what="lazy statics are dropped when the main closure returns, not at the end of the iteration: a thread that is still running and touches one afterwards panics 'attempted to access lazy_static during shutdown' (model.rs Builder::check, rt/lazy_static.rs Set::drop)",
    entries=[("C17", "badverdict", "cfg | T0: spawn 1 | T1: lazy 0", "lazyShutdown")]),
- "F15": dict(cls="condvar-stale-token",
-   what="a pending park token makes Condvar::wait return without a notification (rt/condvar.rs wait parks through rt::park)",
-   entries=[(p, "forbidden", "cfg c=1 m=1 v=1 | T0: spawn 1; lock 0; cwr 0 1; unlock 0; cvone 0; join 1 | T1: unpark 1; lock 0; cvwait 0 0; crd 0; unlock 0",
-             "ok 0:0=- 0:1=- 0:2=- 0:3=- 0:4=- 0:5=- 1:0=- 1:1=- 1:2=- 1:3=v:0 1:4=-") for p in ("C08",)]),
- "F17": dict(cls="unpark-edge-without-park",
-   what="unpark transfers the unparker's causality to the target at once, although nothing is ordered unless a park consumes the token: a data race is hidden (Thread::unpark, rt/thread.rs)",
-   entries=[(p, "missed_failure", "cfg c=1 | T0: spawn 1; cwr 0 1; unpark 1; join 1 | T1: crd 0", "causality") for p in ("C01", "C04", "C08")] +
-           # with the race hidden the run goes on and reports what comes next: a deadlock the reference never reaches
-           [("C05", "badverdict", "cfg c=1 | T0: spawn 1; cwr 0 1; unpark 1; park; join 1 | T1: cwr 0 2", "deadlock")]),
  "F19": dict(cls="park-unbranched-token-test",
    what="thread::park tests the token without a branch point and unpark is not a branch point, so the order of an unpark and the token test is explored only when another branch point happens to separate them: outcomes / deadlocks of the other order are never explored (rt/mod.rs park, thread.rs unpark)",
    entries=[(p, "missed_failure", "cfg c=1 | T0: spawn 1; park; crd 0; park; join 1 | T1: unpark 0; unpark 0", "deadlock") for p in ("C01", "C05", "C08")]),
 }
 
 FIXED = [
+ ("C07", "b682426", "F9a a thread pending on try_lock/try_read/try_write was blocked when another thread acquired the lock: false deadlock when the holder waits for it; witness cfg m=1 | T0: spawn 1; lock 0; join 1; unlock 0 | T1: trylock 0; ifeq 1 v:1 1; unlock 0"),
+ ("C05", "b682426", "F9a false deadlock, same witness"),
+ ("C01", "b682426", "F9a same witness (the reference's only verdict is ok)"),
+ ("C08", "3b12fce", "F17 unpark handed the unparker's causality to the target at once, although nothing is ordered unless a park consumes the unpark: a data race was hidden; witness cfg c=1 | T0: spawn 1; cwr 0 1; unpark 1; join 1 | T1: crd 0"),
+ ("C04", "3b12fce", "F17 missed data race, same witness"),
+ ("C01", "3b12fce", "F17 missed failure, same witness"),
+ ("C05", "3b12fce", "F17 with the race hidden the run went on to a deadlock the reference never reaches; witness cfg c=1 | T0: spawn 1; cwr 0 1; unpark 1; park; join 1 | T1: cwr 0 2"),
+ ("C08", "bd8314b", "F15 a stored unpark made Condvar::wait return without a notification while the thread stayed queued as a waiter; witness cfg c=1 m=1 v=1 | T0: spawn 1; lock 0; cwr 0 1; unlock 0; cvone 0; join 1 | T1: unpark 1; lock 0; cvwait 0 0; crd 0; unlock 0"),
  ("C11", "d0747ef", "F10a strong_count never observed a concurrent drop: RefDec did not depend on the last Inspect; witness cfg  | T0: anew 0; aclone 0 1; spawn 1; acount 0; adrop 0; join 1 | T1: adrop 1 (missing outcome: acount 0 = 1)"),
  ("C01", "d0747ef", "F10a same witness (reference outcome never explored)"),
  ("C08", "e4710d6", "F5/F6/F18 unpark made ANY blocked thread runnable (a thread blocked in join / lock / recv hit an internal assertion or ran on) and the park token lived in State::Runnable so that blocking on a lock in between lost it (false deadlock); witnesses cfg  | T0: spawn 1; join 1 | T1: unpark 0 and cfg m=1 | T0: spawn 1; unpark 1; lock 0; unlock 0; join 1 | T1: lock 0; unlock 0; park"),
